@@ -185,6 +185,7 @@ func genProbe(r *hx.Rand, idx int, seed int64) *Scenario {
 			}
 			return engine.NewSessionAssets(envs.NewBuilder().Build(), src, nil)
 		},
+		LoadWithout: func(kind string) (flows.SessionAssets, error) { return assetsWithout(assetsJSON, kind) },
 		NewEngine: func() flows.Engine {
 			b := engine.NewBuilder()
 			if small {
